@@ -22,7 +22,8 @@ static inline bool dt_is_float(int dt) { return dt == DT_F32 || dt == DT_F64; }
 static inline bool dt_is_signed(int dt) { return dt == DT_I4 || dt == DT_I8 || dt == DT_I16 || dt == DT_I24 || dt == DT_I32 || dt == DT_I64; }
 static inline bool dt_summary64(int dt) { return dt == DT_U32 || dt == DT_I32 || dt == DT_U64 || dt == DT_I64 || dt == DT_F64; }
 
-enum Gen { G_RAMP = 0, G_CONST, G_ALT, G_RANDOM, G_DECADES, G_CBLOCKS, G_NANS, G_OFFSET /* large value + small jitter: counters, timestamps */, G_COUNT };
+enum Gen { G_RAMP = 0, G_CONST, G_ALT, G_RANDOM, G_DECADES, G_CBLOCKS, G_NANS, G_OFFSET /* large value + small jitter: counters, timestamps */,
+           G_HDRLIKE /* bytes FFFFFFFF, 24 x 00, FFFFFFFF repeating: passes the chunk header CRC test */, G_COUNT };
 
 struct Op {
     int kind = 0;
